@@ -250,6 +250,11 @@ class IdentSim(object):
                 self.viol(i, "find-nameid-misses-live", "user=%s filter=%r missing=%r got=%r" % (u, kw, t, got_t))
                 raise Violation()
         for g in got_t:
+            if not g[4] or g not in self.live.get(u, []):
+                # an identifier nobody issued (e.g. a NameID without any content decoded from a stale entry)
+                if not g[4]:
+                    self.viol(i, "find-nameid-returns-unissued", "user=%s got %r" % (u, g))
+                    raise Violation()
             if g[4] and self.owner.get(g[4]) not in (None, u):
                 self.viol(i, "find-nameid-foreign", "user=%s got id of %s: %r" % (u, self.owner.get(g[4]), g))
                 raise Violation()
@@ -384,8 +389,12 @@ class IdentSim(object):
         ts = [tuple(x) for x in ev["ts"]]
         seen = {}
         for t in ts:
-            c = code(mk_nid(t))
-            back = nid_tuple(decode(c))
+            try:
+                c = code(mk_nid(t))
+                back = nid_tuple(decode(c))
+            except Exception as e:
+                self.viol(i, "code-not-reversible", "fields=%r raised %s: %s" % (t, type(e).__name__, e))
+                raise Violation()
             if back != t:
                 self.viol(i, "code-not-reversible", "fields=%r code=%r decoded=%r" % (t, c, back))
                 raise Violation()
